@@ -811,6 +811,25 @@ def _key_ignores_payload(F, f, clo):
     return True
 
 
+_ITER_STEPS = ("collect", "map", "into_iter", "iter", "iter_mut", "drain", "filter_map", "flat_map", "flatten", "chain", "cloned", "copied", "enumerate", "zip", "by_ref", "peekable",
+               "from_iter", "extend", "to_vec", "into_boxed_slice", "into_vec", "as_mut_slice", "as_slice", "deref", "deref_mut", "branch", "unwrap", "expect")
+
+
+def _derives_from(f, tr, operand, sel_blocks, depth=0):
+    """the operand is what select() returned after any number of element-wise iterator steps (`select()?.into_iter().map(wrap).collect()`): the batch in another container"""
+    if depth > 8:
+        return False
+    for r in tr.roots_of_operand(operand):
+        if r.kind != "call" or r.block is None:
+            continue
+        if r.block in sel_blocks:
+            return True
+        t = f.term(r.block)
+        if strip_generics(callee_name(t)).split("::")[-1] in _ITER_STEPS and t["args"] and _derives_from(f, tr, t["args"][0], sel_blocks, depth + 1):
+            return True
+    return False
+
+
 def rule_batch_order(ctx, cfg, F, rule_name="RT-ORDER", only_prefix=None):
     R = ctx.rule(rule_name, "the batch of events returned by select() is consumed in the order returned: no sorting, reversing, swapping, filtering or partial consumption API is applied to it "
                  "between select() and the dispatch loop (per-channel message order is the order of the batch)")
@@ -828,7 +847,7 @@ def rule_batch_order(ctx, cfg, F, rule_name="RT-ORDER", only_prefix=None):
             short = nm.split("::")[-1]
             if short in REORDER and t["args"]:
                 roots = tr.roots_of_operand(t["args"][0])
-                if any(r.kind == "call" and r.block in sel_blocks for r in roots):
+                if any(r.kind == "call" and r.block in sel_blocks for r in roots) or _derives_from(f, tr, t["args"][0], sel_blocks):
                     if short in STABLE_KEYED and len(t["args"]) > 1 and _key_ignores_payload(F, f, t["args"][1]):
                         # a stable sort whose key reads nothing of an event but which member it belongs to and whether it is the closure: events of one
                         # member keep their relative order (and the closure, reported last by the set, stays last)
